@@ -142,7 +142,7 @@ func runC01(t *testing.T, s *kit.Session, c c01Case) *kit.Failure {
 	if err != nil {
 		return &kit.Failure{Cause: "harness", Msg: "world does not build: " + err.Error()}
 	}
-	check := func(b *kit.Built) *kit.Failure { return checkWorldC01(b, &w, c.PropProtected) }
+	check := func(b *kit.Built) *kit.Failure { return checkWorldC01(b, &w, true) }
 	f := check(b)
 	if f != nil {
 		if c.PropProtected && f.Cause == "false-accept" && s.IsKnown("C01-propagation-entry-unverified") {
@@ -174,7 +174,7 @@ func TestC01(t *testing.T) {
 		return
 	}
 	s.SetRule("rapid, class-first construction {authorised-only, violation, recovery, mixed}: worlds of 1-4 validly signed policy states over developer keys 0..5 (rules for refs/heads/main and release with thresholds 1..3, 0-2 delegation levels, optional terminating flags) and logs of 1-24 events {push signed by an authorised / other / de-authorised / unknown / no key, with approvals for exactly this change when the threshold needs them; approval for this or another change; skip/non-skip annotation over 1-3 earlier pushes; policy change; entry for an unrelated ref; propagation entry}. Oracle: reference model of policy-in-force + delegation walk + credit + recovery, compared with VerifyRefFull (verdict and exact tip), VerifyRef and VerifyRefFromEntry(first entry) for three refs. Non-trivial: an entry on a protected ref plus (a violating signer, an approval, an annotation or a policy change)")
-	opt := wgOptions{Delegation: true}
+	opt := wgOptions{Delegation: true, PropProtected: true}
 	kit.Campaign(s, t, "worlds", "world", s.Budget(12_000, 400_000), func(rt *rapid.T) c01Case {
 		cl := map[string]bool{}
 		w := genWorld(rt, opt, cl)
